@@ -119,3 +119,34 @@ package jp
 //@     let v0 = v
 //@     assume [C05 C11 union-reset] !has
 //@     assert [C05 C11 union-idx] has == (spec.NormIndex(i0, len(tv)) >= 0) && (has ==> v == tv[spec.NormIndex(i0, len(tv))]) && (!has ==> v == v0)
+
+// ---------------------------------------------------------------------------
+// Filter scripts are total (C12): evaluating the prefix-notation program never raises a runtime fault, for every operator
+// and every kind of operand on either side (thin safety contracts: every implicit obligation on every path of evalStack
+// and normalize, among them "== on interface values whose dynamic type is not comparable").
+// Assumed (A-INIT): package initialisation has run and the operator descriptors are never reassigned.
+// Assumed (A-REFLECT): same() — reflect.Type.Comparable guards the == it performs.
+
+//@ unit jpscript
+
+//@ pred OpsInit(z) = eq != nil && neq != nil && lt != nil && gt != nil && lte != nil && gte != nil && or != nil && and != nil && not != nil
+//@     && add != nil && sub != nil && mult != nil && divide != nil && get != nil && in != nil && empty != nil && jp.rx != nil && rxa != nil
+//@     && has != nil && exists != nil && length != nil && count != nil && match != nil && search != nil && group != nil
+
+//@ func same
+//@   trusted
+
+//@ func normalize
+//@   opt props = C12
+
+// Arithmetic on the data (+ - * / of two int64 operands) wraps around as Go defines; that is not a fault.
+//@ func evalStack
+//@   opt props = C12
+//@   opt wrap = data
+//@   requires OpsInit(0)
+//@   modifies heap(sstack)
+//@   loop 0
+//@     invariant [C12 bounds] -1 <= i && i < len(sstack) && OpsInit(0)
+//@     variant i + 1
+//@   loop 1
+//@     invariant true
